@@ -10,7 +10,6 @@ NA = {
  "C28": "ordering across goroutines, mailboxes and an ants pool; the SSA executor has no goroutine scheduler",
  "C31": "concurrent shard workers with port latencies; no goroutine scheduler in the executor",
  "C37": "the property is the concurrency itself (ants pools, timers, close races)",
- "C38": "zstd, encoding/json canonical decoding and SHA-256 over streamed objects",
  "C41": "stop/drain races between goroutines and deadlines",
 }
 
@@ -139,6 +138,10 @@ claim("C09", "other",
 claim("C14", "other",
       "Slice: pkg/raftlog executed from source with the Pebble MODULE replaced by an in-memory shim (atomic batches, range deletes, bounded iterators, commit fault injection). For every Raft-valid history of 3 operations over {Save(hard state + entries incl. an overwrite of a conflicting suffix), Save with a snapshot / compaction, MarkApplied, MarkConfigApplied} the durable store answers InitialState, Entries(lo,hi), Term(i), FirstIndex, LastIndex and Snapshot exactly as the package's reference in-memory storage - after every operation, after a kill + reopen at any commit boundary (state before or after the operation, never a mix: every flush is exactly one Pebble commit), and after Close + Open; a failing commit returns the error and leaves the state unchanged; two scopes sharing one batch are each all-or-nothing; it never returns entries below the compaction point nor a term for an index it does not hold.",
       "Real Pebble (WAL, LSM, fsync, power loss inside a commit) is the axiom, not the subject; raftlog.Open, the write queue (submitWrite / runWriteWorker batching, timers) and snapshot chunk files are bypassed: the DB struct is built directly, the real flushWriteRequests is called with the requests Save / MarkApplied build, and snapshots are observed through their Pebble manifest; indexes enumerated in windows at 1, 254 (65534 thorough), terms 1..127 symbolic, one payload byte symbolic, applied indexes any uint64; the reference is pkg/raftlog/memory.go (etcd's MemoryStorage cannot be loaded from source). " + TB)
+
+claim("C38", "other",
+      "Slice: the real pkg/backup archive code (chunks, slot manifests, message-chunk index, repository markers, ReadStoredObject, LoadStoredSlot(Reference)) and the real PublishArchive / VerifyPublishedArchive of internal/runtime/backup over an in-memory ArchiveStore, with Zstandard replaced by an identity frame and SHA-256 abstract (injective) on symbolic streams. A published archive (chunks of a few symbolic bytes; a full 256-slot archive in the publish entries) verifies and reproduces its manifests; after ONE tampering step - rewrite / truncate / extend / drop / swap an object, a wrong reported size, one digest character at a symbolic position, a canonical re-encoding with one value or order changed, a manifest resealed with a recomputed COMPLETE marker, single bit flips of manifest and marker texts - verification and loading fail, never succeed, never panic; ReadStoredObject reads at most limit+1 bytes. Manifest decoders accept exactly the canonical text out of catalogues of 36-41 literal texts each (re-ordered / duplicate / unknown keys, trailing data, oversized counts, wrong version) - an enumeration over literals, not a symbolic claim over all bytes.",
+      "Zstandard itself, arbitrary bytes as manifest input beyond the catalogue and bit flips, symbolic integers inside manifests, more than one change per archive, real-size limits (64 MiB, 200k chunks), the file / S3 store adapters, retention / HOLD, restore, exportSlot / FullStreamWriter (temp files), concurrency and cancellation are not covered; the adversary entries over the full archive use concrete content with symbolic tampering. encoding/json runs exactly (real library on a reflect mirror, engine/intr_C38.go). " + TB)
 
 def main():
     props = [json.loads(l) for l in open(os.path.join(ROOT, 'properties.jsonl'))]
